@@ -1496,3 +1496,27 @@ func genLabelLeak(t *rapid.T) Case {
 	c.Ticks = rapid.IntRange(150, 300).Draw(t, "ticks")
 	return c
 }
+
+// genDbUnsized: the documentation's own example of `db` (plain decimal numbers), read back cell by cell.
+func genDbUnsized(t *rapid.T) Case {
+	var c Case
+	rsize := rapid.SampledFrom([]int{8, 16, 32, 64}).Draw(t, "rsize")
+	c.Cfg = cfgNoDyn
+	var vals []string
+	for i, n := 0, rapid.IntRange(2, 4).Draw(t, "nvals"); i < n; i++ {
+		vals = append(vals, fmt.Sprint(rapid.IntRange(1, 255).Draw(t, "v")))
+	}
+	var b strings.Builder
+	b.WriteString("%section data .romdata\n\tf db " + strings.Join(vals, ", ") + "\n%endsection\n")
+	b.WriteString("%section code .romtext iomode:sync\n\tentry start\nstart:\n\trset r2, 1\n\tmov r0, rom:f\n") // (an immediate load keeps the ROM word at least as wide as a register)
+	for range vals {
+		b.WriteString("\tmov r1, rom:[r0]\n\tmov o0, r1\n\tnop\n\tnop\n\tnop\n\tinc r0\n")
+	}
+	b.WriteString("done:\n\tj done\n%endsection\n")
+	b.WriteString("%meta cpdef cpu romcode: code, romdata: data\n%meta ioatt out0 cp: cpu, index:0, type:output\n%meta ioatt out0 cp: bm, index:0, type:output\n")
+	b.WriteString(fmt.Sprintf("%%meta bmdef global registersize:%d\n", rsize))
+	c.Src = b.String()
+	c.OutStall = []int{rapid.IntRange(0, 2).Draw(t, "stall")}
+	c.Ticks = 40 + 12*len(vals)
+	return c
+}
